@@ -555,6 +555,85 @@ func runC34Extra(c *Ctx) {
 			c.undecided("C34.unstake-expiry", "increaseUnstake merged slot", f.Pos(), fmt.Sprintf("expected 2 flows into the merged expiry, found %d", n))
 		}
 	}
+	// (6) amounts handed in as *big.Int are borrowed: never the receiver of an in-place operation
+	nBorrow := 0
+	for _, pk := range []string{ii, ics} {
+		for _, f := range c.pkgFuncs(pk) {
+			if strings.HasSuffix(c.file(f.Pos()), "_test.go") {
+				continue
+			}
+			for _, cs := range c.calls(f, func(cc *ssa.CallCommon) bool {
+				return strings.HasPrefix(calleeName(cc), "(*math/big.Int).") && bigMutators[methodName(cc)]
+			}) {
+				nBorrow++
+				r, _ := callArgs(cs.Common())
+				root := r
+				for {
+					if phi, ok := root.(*ssa.Phi); ok && len(phi.Edges) > 0 {
+						// a working variable: borrowed if any incoming value is a parameter
+						var par ssa.Value
+						for _, e := range phi.Edges {
+							if _, ok := e.(*ssa.Parameter); ok {
+								par = e
+							}
+						}
+						if par != nil {
+							root = par
+						}
+					}
+					break
+				}
+				p, isParam := root.(*ssa.Parameter)
+				if isParam && f.Signature.Recv() != nil && p == f.Params[0] {
+					isParam = false // a method of a big.Int-based type working on itself
+				}
+				if isParam {
+					c.violate("C34.borrowed-amounts", fnName(f)+" does not modify an amount it was handed", cs.Pos(), "parameter "+p.Name()+" is the receiver of "+methodName(cs.Common())+": the caller goes on using the value (total stake/delegation updates) and books a different amount than the one applied")
+				}
+			}
+		}
+	}
+	c.check(nBorrow > 50, "C34.borrowed-amounts", "in-place big.Int operations examined", token.NoPos, fmt.Sprintf("%d sites, none on a parameter", nBorrow), fmt.Sprintf("only %d in-place operations found", nBorrow))
+	// (7) SetDelegation: the target's own counter follows every change; only the network total is
+	// restricted to active P-Reps (RegisterPRep/DisablePRep move the counter into/out of the total)
+	if f := c.mustFn(ii, "ExtensionStateImpl", "SetDelegation"); f != nil {
+		n := 0
+		for _, cs := range c.calls(f, byMethod("SetDelegated")) {
+			n++
+			bad := ""
+			for _, alt := range altGuards(cs.Instr.Block()) {
+				for _, g := range alt {
+					if strings.Contains(render(g.Cond), ".IsActive()") {
+						bad = g.String()
+					}
+				}
+			}
+			c.check(bad == "", "C34.activation-total", "SetDelegation updates the target's delegated amount whether or not it is an active P-Rep", cs.Pos(), "not conditioned on IsActive", "the target's counter is only updated under "+bad+": a delegation made before registration is missing when RegisterPRep adds the counter to the total, and a later withdrawal drives both negative")
+			_, a := callArgs(cs.Common())
+			x, y, okA := bigBin(a[0], "Add")
+			c.check(okA && strings.HasSuffix(render(x), ".Delegated()") && render(y) != "", "C34.activation-total", "the target's counter moves by the delta of this call", cs.Pos(), render(a[0]), "SetDelegated("+render(a[0])+")")
+		}
+		if n != 1 {
+			c.undecided("C34.activation-total", "SetDelegation per-target update", f.Pos(), fmt.Sprintf("expected one SetDelegated call, found %d", n))
+		}
+		var tot ssa.Value
+		for _, cs := range c.calls(f, byCallee("State).SetTotalDelegation")) {
+			_, a := callArgs(cs.Common())
+			tot = a[0]
+		}
+		nT := 0
+		for _, cs := range c.calls(f, byCallee("(*math/big.Int).Add")) {
+			r, a := callArgs(cs.Common())
+			if tot == nil || r != tot || a[0] != tot {
+				continue
+			}
+			nT++
+			c.requireAt("C34.activation-total", "the network total counts a delta only for an active P-Rep", cs.Instr, wTrue("IsActive()", `\.IsActive\(\)$`))
+		}
+		if nT == 0 {
+			c.undecided("C34.activation-total", "SetDelegation total accumulation", f.Pos(), "nTotal.Add(nTotal, value) not found")
+		}
+	}
 	// (5) clones own their elements
 	nCl := 0
 	for _, f := range c.pkgFuncs(ics) {
